@@ -273,15 +273,21 @@ def gen_table(rng):
     func = rng.choice(names)
     first = {'func': func, 'args': [[k, mk.next(rng)] for k in rng.sample(['x', 'y', 0, 1, 'z'], rng.randrange(0, 4))], 'node': rng.choice(['call', 'bind'])}
     hist = []
-    for _ in range(rng.choice([1, 1, 2, 3, 4, 5])):
+    forced = rng.random() < 0.25 and first['args']
+    if forced:
+        # arguments protected by a priority of their own: a *different* target still drops them all
+        first['forced'] = [kv[0] for kv in first['args'] if rng.random() < 0.7] or [first['args'][0][0]]
+    for _ in range(rng.choice([1, 1, 2, 3, 4, 5]) if not forced else 1):
         k = rng.choice(['map', 'map', 'list', 'mergelist', 'str_same', 'str_other', 'fn_same', 'fn_other', 'fn_same_merge', 'fn_other_merge'])
+        if forced:
+            k = rng.choice(['str_other', 'fn_other'])
         st = {'k': k}
         if k == 'map':
             st['args'] = [[kk, mk.next(rng)] for kk in rng.sample(['x', 'y', 0, 1, 'w'], rng.randrange(0, 4))]
         elif k in ('list', 'mergelist'):
             st['list'] = [mk.next(rng) for _ in range(rng.randrange(0, 4))]
         elif k == 'str_other' or k.startswith('fn_other'):
-            st['name'] = rng.choice(names)
+            st['name'] = rng.choice(names if not forced else [x for x in names if x != func])
         if k.startswith('fn_'):
             st['args'] = [[kk, mk.next(rng)] for kk in rng.sample(['x', 'y', 0, 'v'], rng.randrange(0, 3))]
         hist.append(st)
@@ -296,7 +302,10 @@ def run_table(case):
     for st in case['hist']:
         if 'args' in st:
             st['args'] = dict((k, v) for k, v in st['args'])
-    docs = [M([['other', S(1)], ['f', SP(kind, func=func, args=M([[k, S(v)] for k, v in args.items()]))]])]
+    fset = set(case['first'].get('forced') or [])
+    docs = [M([['other', S(1)], ['f', SP(kind, func=func, args=M([[k, S(v, prio=1) if k in fset else S(v)] for k, v in args.items()]))]])]
+    if fset:
+        feats_forced = True
     feats = []
     for st in case['hist']:
         k = st['k']
@@ -343,6 +352,8 @@ def run_table(case):
     texts = [emit.emit(d, 'flow') for d in docs]
     got = lib.outcome(lambda: lib.merged(texts))
     vio = []
+    if fset:
+        feats.append('forced_args_then_other_target')
     if got[0] == 'err':
         vio.append({'mech': 'table-merge-fails', 'what': f'history {case["hist"]!r} on {case["first"]!r}: build {lib.describe(got)}; texts={texts!r}'})
     else:
